@@ -361,7 +361,8 @@ func cmdCheck(args []string) int {
 			inconclusive = append(inconclusive, es.Entry+": VACUOUS - no feasible path reaches the end of the harness")
 		}
 		for m := range assertMessages(fn) {
-			if knownID(m) == "" {
+			// harness code shared between properties tags its messages "Cxx ..."; only this property's count
+			if knownID(m) == "" && !(len(m) > 3 && m[0] == 'C' && m[1] >= '0' && m[1] <= '9' && m[2] >= '0' && m[2] <= '9' && m[:3] != id) {
 				allAsserts[m] = true
 			}
 		}
@@ -495,7 +496,7 @@ func cmdCheck(args []string) int {
 			if desc, ok := kf.known[id+"/"+kid]; ok {
 				if !knownSeen[kid] {
 					knownSeen[kid] = true
-					lines = append(lines, fmt.Sprintf("KNOWN-FINDING: property=%s %s", id, desc))
+					lines = append(lines, "KNOWN-FINDING: "+desc)
 				}
 				os.Remove(c.path)
 				continue
